@@ -9,10 +9,33 @@ from __future__ import annotations
 import copy
 
 
+HUGE = 1 << 24  # beyond this float32 cannot represent every integer
+
+
 def gen_instance(rng, *, max_jobs=4, max_machines=4, max_ops=4, flexible=None,
                  zero=None, regular=None, recirc=None, positive=None,
-                 classic=None, degenerate=True, min_jobs=1, max_dur=9):
-    """Draws an instance spec.  Every ``None`` switch is drawn per call."""
+                 classic=None, degenerate=True, min_jobs=1, max_dur=9, huge=0.0):
+    """Draws an instance spec.  Every ``None`` switch is drawn per call.
+    `huge`: probability that the time unit is so fine that durations lie
+    around 2**24 (e.g. microseconds), where a float32 detour loses integers."""
+    spec = _gen_instance(rng, max_jobs=max_jobs, max_machines=max_machines, max_ops=max_ops, flexible=flexible, zero=zero,
+                         regular=regular, recirc=recirc, positive=positive, classic=classic, degenerate=degenerate,
+                         min_jobs=min_jobs, max_dur=max_dur)
+    if huge and rng.random() < huge:
+        k = 0
+        for job in spec["jobs"]:
+            for op in job:
+                # keep zero durations zero; lift one or two operations per instance into the 2**24 range, +-3
+                if op[1] > 0 and (k == 0 or rng.random() < 0.3):
+                    op[1] = HUGE + rng.randint(-3, 3) + op[1]
+                    k += 1
+        spec["shape"] = "huge_durations"
+    return spec
+
+
+def _gen_instance(rng, *, max_jobs=4, max_machines=4, max_ops=4, flexible=None,
+                  zero=None, regular=None, recirc=None, positive=None,
+                  classic=None, degenerate=True, min_jobs=1, max_dur=9):
     if positive is True:
         zero = False
     if flexible is None:
@@ -161,7 +184,7 @@ def shrink_candidates(spec):
     # lower durations
     for j, job in enumerate(jobs):
         for p, (ms, d) in enumerate(job):
-            for nd in sorted({1, d // 2, d - 1}):
+            for nd in sorted({1, d // 2, d - 1, d - HUGE if d > HUGE else d - 1}):
                 if 0 <= nd < d and not (d > 0 and nd == 0):
                     nj = copy.deepcopy(jobs)
                     nj[j][p][1] = nd
